@@ -60,8 +60,10 @@ CLAIMS = {
        "defect, replayed through the CLI, fixed in /repo). The operator-level flag is decided on the MIR of `(CmpOperator, bool)::compare` "
        "and its result-flipping closure: Success always becomes Fail, a value / value-in Fail becomes Success with the same operands, "
        "NotComparable and unresolved operands are returned unchanged, the operands reach the operator in order, and without the flag the "
-       "result is returned as is. The list-level reverse-diff arithmetic of QueryIn / ListIn outcomes and the parser side of negation "
-       "are NOT decided.",
+       "result is returned as is. A failed list-in outcome under the flag: every element of the left list is looked up in the old difference, the new "
+       "difference is exactly the elements found on the right, Success iff it is empty. Parser side: the access-clause builder stores "
+       "negation = 'a prefix not was parsed' and the (operator, operator-level not) pair as parsed, neither folded into the other. The "
+       "reverse-diff arithmetic of QueryIn outcomes is NOT decided.",
   design="4/C03"),
  "C04": dict(
   text="Bounded model checking that the real CNF combinator returns the same status for a CNF and for any permutation of its "
@@ -137,8 +139,8 @@ CLAIMS = {
        "(z3+cvc5; havoc mode, directed CFG paths) for failing arithmetic-overflow / negate asserts in emit_code, retrieve_index and "
        "query_retrieval_with_converter, and for out-of-bounds `v[i]` in operators::contained_in, EqOperation::compare and "
        "each_lhs_compare and in the argument lists of the substring / join / regex_replace built-ins (len / is_empty / index modelled per "
-       "value; arity assumed as checked by the parser), and for `unwrap()` on the fallible parameter merge of the --structured path; "
-       "every candidate is replayed through the real CLI. Seven genuine C08 defects were found this way and fixed "
+       "value; arity assumed as checked by the parser), and for `unwrap()` on the fallible parameter merge of the --structured path and on template content in rulegen's gen_rules; "
+       "every candidate is replayed through the real CLI. Eight genuine C08 defects were found this way and fixed "
        "(known_findings.json: fixed).",
   note="NOT covered: arbitrary bytes through the nom parser and libyaml, recursion depth, the report builder's unreachable!()s, "
        "operators.rs match_value. K14 stubs values::read_from (forced to fail) and str::trim (identity).",
@@ -155,7 +157,10 @@ CLAIMS = {
        "FAIL rule record always yields exactly one Rule entry with that rule's name (also when no individual check can be shown), a PASS / "
        "SKIP rule record yields nothing, and NOTHING is listed for any record whose own status is PASS or SKIP (all status-carrying record "
        "kinds: file, rule, conditions, type / when / block / disjunction / clause-block checks, unary / comparison / in clause checks). "
-       "NOT covered: the text of the messages and the per-shape content of each clause report, the serialised JSON.",
+       "FileReport::combine adds each of the other report's three lists whole to the list of the same name (union, independent "
+       "of order) and folds the status with Status::and. NOT covered: the text of the messages and the per-shape content of each clause "
+       "report, the serialised JSON. KNOWN FINDING (recorded, not repaired): a rule NAME defined several times with different statuses is "
+       "listed in more than one of the three lists.",
   design="4/C09"),
  "C10": dict(
   text="Bounded symbolic execution (MIR, callees modelled, value identities tracked; z3+cvc5) of the loader -> evaluator conversion "
@@ -163,7 +168,8 @@ CLAIMS = {
        "carries its own source location (attached by the scalar arm or handed down by the enclosing arm); the i-th list element is "
        "converted under `path/i` with i its 0-based position, results appended in order; a map entry's value is converted under "
        "`path/<its key>` and stored under that key, the key record carries the key's own location; the map carries the map's location; "
-       "a BadValue or a failing recursive conversion is an error.",
+       "a BadValue or a failing recursive conversion is an error; build_data_file hands the loader the file's FULL text (not a trimmed "
+       "copy), so marks are positions in the file.",
   note="Plus Kani/CBMC on the pointer string itself: Path::extend_str on pointers of 0..2 bytes and keys of 0..2 bytes (symbolic "
        "ASCII, any line/col) returns pointer + '/' + key byte for byte - also for the EMPTY key - and keeps the position; "
        "with_location replaces the position and keeps the pointer; extend_usize renders every index < 100 in decimal (and, on MIR, always "
@@ -181,7 +187,9 @@ CLAIMS = {
        "(rejected), any other tag a String. The other two loaders (serde_yaml / serde_json -> Value, used by `test` and run_checks), number arm, "
        "with serde's is_i64 / is_u64 / as_* modelled by their contracts over mathematical integers: Int(v) only for an integer that fits "
        "i64 and with exactly that value, an i64 integer never becomes a Float, no unwrap on None (found: unsigned numbers above i64::MAX "
-       "wrapped to negative Ints; fixed).",
+       "wrapped to negative Ints; fixed). Loader agreement on short forms: with a tag's membership in the two tables symbolic, the "
+       "validate loader expands a scalar payload, and a sequence payload, under exactly the condition under which the serde loader "
+       "expands any payload (found: it did not - `!Ref [a]`, `!Join s`; fixed).",
   note="This is the typing cascade of the validate loader plus the number arm of the serde loaders. NOT covered: what str::parse::<i64|f64|bool> accept (e.g. `inf`, `nan`, "
        "`+1` are accepted by Rust's parsers), agreement with serde_yaml / serde_json used by `test` and the library API, the content "
        "of the short-form intrinsic tables beyond their shape (every short tag maps to an `Fn::`/`Ref` long form, sequence vs single-value "
@@ -194,7 +202,7 @@ CLAIMS = {
        "expectations are looked up in THAT case's table): every pair is evaluated exactly once, in a scope that root_scope "
        "built from exactly that rules file and that document; the scope handed to eval_rules_file is the one created for the pair and "
        "is never reused; the evaluation is labelled with that document's name; each pair's report is the one combined into the "
-       "document's report.",
+       "document's report, and combining is a list-wise union that does not depend on the order.",
   note="This decides the wiring of the loops (which values reach root_scope / eval_rules_file), i.e. that no evaluation state object is "
        "shared between pairs; it does NOT decide that RootScope holds all mutable state, directory walking / ordering (-a / -m), "
        "the content of merged input parameters (wiring of the merge is under C17). No Kani harness serves this property.",
@@ -256,7 +264,7 @@ CLAIMS = {
        "as met nor as failed; met -> PASS group, else FAIL group), get_by_rules' fold step (a RuleCheck record is appended to the group of its own name, other "
        "records change nothing) and StructuredTestReporter::evaluate (fresh scope per case; no expectation -> skipped_rules only; "
        "get_status_result(expected, this rule's records) decides passed_rules / failed_rules with the right statuses); the number arm of the "
-       "serde_yaml / serde_json loaders that feed `test` (Int only with the exact i64 value - see C11).",
+       "serde_yaml / serde_json loaders that feed `test` (Int only with the exact i64 value - see C11) and their agreement with the validate loader on short-form tags.",
   note="NOT covered: that `test` and `validate` compute the same statuses (two loaders + the evaluator), `--dir` mode, the rendering of "
        "the four output formats.",
   design="4/C16"),
@@ -283,8 +291,9 @@ CLAIMS = {
        "function to its single argument list and returns that result; every element-wise built-in (url_decode, json_parse, "
        "regex_replace, substring, to_upper, to_lower, parse_*) visits every argument value, appends exactly one result per value in "
        "order, and builds a result only from that value, the fixed arguments and objects created while handling it (no state carried "
-       "from one value to the next), for argument lists of <= 2 values.",
-  note="NOT covered: join (String::with_capacity(512)+push_str over heap strings: CBMC aborts at 14 GB), parse_bool/to_upper/to_lower "
+       "from one value to the next), for argument lists of <= 2 values; join over <= 3 members with arbitrary (also empty) contents appends "
+       "member 0, delimiter, member 1, ... member n-1 - one delimiter between neighbours, none before the first or after the last.",
+  note="NOT covered: the characters join produces (only the append sequence is decided; Kani covers 2 members), parse_bool/to_upper/to_lower "
        "(Unicode case tables reachable through heap-held kinds), url_decode, regex_replace, json_parse, parse_epoch, now, string "
        "parsing (`parse::<i64>` on symbolic bytes), dispatch/arity in the parser, results bound to variables.",
   design="4/C18"),
